@@ -58,6 +58,12 @@ Definition addc (c : cur) (pure : bool) (x : N) : cur :=
 Definition quoted (c : cur) : cur :=
   match c with None => Some (false, []) | Some (_, w) => Some (false, w) end.
 
+(* ---- the quoting rule of the (repaired) library, Ipmitool._quote: every backslash,
+   double quote, dollar and backquote gets a backslash in front; all else unchanged ---- *)
+Definition dq_special (c : N) : bool := (c =? 92) || (c =? 34) || (c =? 36) || (c =? 96).
+Definition dq_escape (s : list N) : list N :=
+  flat_map (fun c => if dq_special c then [92; c] else [c]) s.
+
 Definition reserved : list (list N) :=
   map bytes_of_string ["!"; "{"; "}"; "if"; "then"; "else"; "elif"; "fi"; "for"; "while";
                        "until"; "do"; "done"; "case"; "esac"; "in"]%string.
@@ -101,7 +107,7 @@ Fixpoint lex (m : mode) (c : cur) (acc : list (list N)) (r : bool) (s : list N) 
           else if x =? 92 then
             match s' with
             | d :: s'' =>
-                if (d =? 36) || (d =? 96) || (d =? 34) || (d =? 92)
+                if dq_special d
                 then lex MDq (addc c false d) acc r s''          (* escape removed *)
                 else if d =? 10 then lex MDq c acc r s''          (* line continuation *)
                 else lex MDq (addc c false 92) acc r s'           (* backslash stays *)
@@ -149,11 +155,9 @@ Fixpoint lex (m : mode) (c : cur) (acc : list (list N)) (r : bool) (s : list N) 
 
 Definition sh_lex (cmd : list N) : outcome := lex MW None [] false cmd.
 
-(* ---- the quoting rule of the (repaired) library, Ipmitool._quote: every backslash,
-   double quote, dollar and backquote gets a backslash in front; all else unchanged ---- *)
-Definition dq_special (c : N) : bool := (c =? 92) || (c =? 34) || (c =? 36) || (c =? 96).
-Definition dq_escape (s : list N) : list N :=
-  flat_map (fun c => if dq_special c then [92; c] else [c]) s.
+(* domain predicates used by the statements: no NUL byte; a word that needs no quoting *)
+Definition nonul (s : list N) : bool := forallb (fun c => negb (c =? 0)) s.
+Definition plain_word (w : list N) : bool := forallb lit w && negb (bytes_eqb w []).
 
 Definition outcome_eqb (a b : outcome) : bool :=
   match a, b with
